@@ -58,6 +58,11 @@ def oracle(rows, at_raw, half, ds, slack=0.0):
 def synthetic(cell):
     import py_ballisticcalc as pb
     drops = cell
+    if drops and isinstance(drops[0], str):
+        # the same profile under non-default display preferences: results are about magnitudes, not about the units rows are displayed in
+        pref, drops = drops[0], drops[1:]
+        for slot, un in {'cm_yd': (('drop', 'Centimeter'), ('target_height', 'Yard')), 'metric': (('drop', 'Centimeter'), ('target_height', 'Meter'), ('distance', 'Meter'))}[pref]:
+            setattr(pb.PreferredUnits, slot, pb.Unit[un])
     L = len(drops)
     rows = [_row(i, d) for i, d in enumerate(drops)]
     hr = pb.HitResult(None, rows, True)
@@ -94,6 +99,7 @@ def synthetic(cell):
     except AttributeError:
         pass
     nontrivial = L >= 3 and len(set(drops)) > 1
+    pb.PreferredUnits.defaults()
     shape = [any(a < b for a, b in zip(drops, drops[1:])), any(a > b for a, b in zip(drops, drops[1:]))]
     return {'v': out, 'n': n, 'states': 1, 'transitions': n, 'traces': 1, 'nt': cell if nontrivial else None, 'obs': [L] + shape}
 
@@ -148,6 +154,7 @@ PARTS = {'synthetic': synthetic, 'real': real}
 def plan(tier):
     maxlen = 5 if tier == 'quick' else 6
     syn = [list(p) for L in range(1, maxlen + 1) for p in itertools.product(LEVELS, repeat=L)]
+    syn += [[pref] + list(p) for pref in ('cm_yd', 'metric') for L in range(1, min(maxlen, 5) + 1) for p in itertools.product(LEVELS, repeat=L)]
     rl = []
     for look in (0.0, 15.0):
         for step in (10, 1):
